@@ -283,6 +283,34 @@ def is_gap_closing(fn) -> bool:
     return all(EXIT not in g.reachable(first, avoid={h}) for h in heads.values())
 
 
+def _prefix_walk(ctx, qual):
+    """the walk over the sub-offsets 0, 1, 2, .. of a port that stops at the first one without an entry, in its canonical form
+    (hv/canon.py: a cursor object advanced by next_sub_offset(), an itertools pipeline over count(), or a counter, coincide):
+        k = 0;  while _SubPort(PORT, k) in MAP: BODY; k = k + 1
+    -> (port text, map text, body statements, counter name, the loop, the canonical function), None when the function has another shape"""
+    from ..tmpl import T, tmatch
+    cf = ctx.cfn(qual, accessors=True)
+    for blk in [cf.body] + [getattr(n, f_) for n in ast.walk(cf) for f_ in ("body", "orelse") if isinstance(getattr(n, f_, None), list) and n is not cf]:
+        for i, s_ in enumerate(blk):
+            if not isinstance(s_, ast.While) or s_.orelse or i == 0:
+                continue
+            e = tmatch(s_.test, T("_SubPort(E_p, L_k) in E_m"))
+            if e is None or not s_.body:
+                continue
+            k = e["L_k"]
+            init = blk[i - 1]
+            if not (isinstance(init, ast.Assign) and u(init) == f"{k} = 0"):
+                continue
+            if u(s_.body[-1]) != f"{k} = {k} + 1":
+                continue
+            body = s_.body[:-1]
+            if any(isinstance(n, ast.Name) and n.id == k and isinstance(n.ctx, (ast.Store, ast.Del)) for b_ in body for n in ast.walk(b_)) \
+                    or any(isinstance(n, (ast.Break, ast.Continue)) for b_ in body for n in ast.walk(b_)):
+                continue
+            return e["E_p"], e["E_m"], body, k, (blk, i), cf
+    return None
+
+
 def r3_dense_suboffsets(ctx, hugr, file) -> None:
     """on canonical method bodies (aliases of self._links are replaced by the attribute, unknown helpers are inlined)"""
     from ..tmpl import T, tall, thas
@@ -292,7 +320,7 @@ def r3_dense_suboffsets(ctx, hugr, file) -> None:
     us = cm.get("_unused_sub_offset")
     if lp is None or us is None:
         ctx.broken("anchor vanished: Hugr._linked_ports / _unused_sub_offset")
-    assumes = all(any(isinstance(n, ast.While) and " in " in u(n.test) for n in ast.walk(f)) and "next_sub_offset" in u(f) for f in (lp, us))
+    assumes = all(_prefix_walk(ctx, f"{HQ}.{nm_}") is not None for nm_ in ("_linked_ports", "_unused_sub_offset"))
     ctx.stats["C04.R3 prefix assumption present"] = assumes
     helpers = [m for name, m in cm.items() if _raw_link_deletes(m) and is_gap_closing(m)]
     n = 0
@@ -562,12 +590,26 @@ def r6_r7_tables(ctx, hugr, file, only=None) -> None:
         ctx.check(ok, "C04.R7", f"Hugr.{name}", file, m.lineno,
                   f"Hugr.{name} must enumerate ports 0..n-1 of {direction}, each with all the ports linked to it in {table}" + (f" [{why}]" if why else ""), m)
     lp = hugr.methods.get("_linked_ports")
-    whiles = [n for n in ast.walk(lp) if isinstance(n, ast.While)]
-    ok = len(whiles) == 1 and isinstance(whiles[0].test, ast.Compare) and isinstance(whiles[0].test.ops[0], ast.In) and any(
-        isinstance(y, ast.Yield) and u(y.value).endswith(".port") and "links[" in u(y.value) for y in ast.walk(whiles[0])) and "next_sub_offset()" in u(whiles[0])
-    first = [s for s in real_body(lp) if isinstance(s, ast.Assign)]
-    ok = ok and bool(first) and u(first[0].value) == "_SubPort(port)"
+    pa = [a.arg for a in lp.args.args[1:3]]
+    w = _prefix_walk(ctx, f"{HQ}._linked_ports")
+    ok = False
+    if w is not None and len(pa) == 2:
+        port_t, map_t, body, k, (blk, i), cf = w
+        # .. yielding, for each occupied sub-offset in turn, the port of the entry found there -- and nothing else
+        ok = port_t == pa[0] and map_t == pa[1] and len(body) == 1 and u(body[0]) == f"yield {pa[1]}[_SubPort({pa[0]}, {k})].port" \
+            and len([n for n in ast.walk(cf) if isinstance(n, (ast.Yield, ast.YieldFrom))]) == 1 and blk is cf.body and len(cf.body) == 2
     ctx.check(ok, "C04.R7", "Hugr._linked_ports", file, lp.lineno, "linked ports are the entries at sub-offsets 0,1,.. of the port, in order", lp)
+    us = hugr.methods.get("_unused_sub_offset")
+    w = _prefix_walk(ctx, f"{HQ}._unused_sub_offset")
+    ok = False
+    if w is not None and us is not None:
+        port_t, map_t, body, k, (blk, i), cf = w
+        pp = us.args.args[1].arg
+        after = blk[i + 1:]
+        # the first sub-offset without an entry in the map of the port's direction (which map: the direction table rule above)
+        ok = port_t == pp and not body and len(after) == 1 and u(after[0]) == f"return _SubPort({pp}, {k})" and blk is cf.body
+    ctx.check(ok, "C04.R7", "Hugr._unused_sub_offset: first free sub-offset", file, us.lineno if us else 1,
+              "the allocator returns the lowest sub-offset of the port that has no entry (sub-offsets in use stay a gap-free prefix)", us)
     nd = ctx.program.cls(f"{BASE}.NodeData")
     f = nd.find_field("children")
     ctx.check(f is not None and f.default_factory is not None and u(f.default_factory) == "list", "C04.R7", "NodeData.children: fresh list per node", nd.module.path,
@@ -754,6 +796,12 @@ MUTANTS = [
     dict(name="port-count-off-by-one", file=B, expect="C04.R6", old="        self[dst.node]._num_inps = max(self[dst.node]._num_inps, dst.offset + 1)", new="        self[dst.node]._num_inps = max(self[dst.node]._num_inps, dst.offset)"),
     dict(name="order-link-duplicated", file=B, expect="C04.R6", old="        if not self.has_link(source, target):\n            self.add_link(source, target)", new="        self.add_link(source, target)"),
     dict(name="order-link-wrong-port", file=B, expect="C04.R6", old="        target = dst.inp(-1)", new="        target = dst.inp(0)"),
+    dict(name="linked-ports-skip-first", file=B, expect="C04.R7", old="        sub_port = _SubPort(port)\n        while sub_port in links:\n            # sub offset not used in API",
+         new="        sub_port = _SubPort(port, 1)\n        while sub_port in links:\n            # sub offset not used in API"),
+    dict(name="allocator-no-walk", file=B, expect="C04.R7", old="        sub_port = _SubPort(port)\n        while sub_port in d:\n            sub_port = sub_port.next_sub_offset()\n        return sub_port",
+         new="        return _SubPort(port, len(d))"),
+    dict(name="sub-offset-steps-by-two", file="hugr-py/src/hugr/hugr/node_port.py", expect="C04.R7", old="        return replace(self, sub_offset=self.sub_offset + 1)",
+         new="        return replace(self, sub_offset=self.sub_offset + 2)"),
     dict(name="link-at-suboffset-zero", file=B, expect="C04.R7", old="        dst_sub = self._unused_sub_offset(dst)", new="        dst_sub = _SubPort(dst)"),
     dict(name="direction-table-crossed", file=B, expect="C04.R7", old="            case OutPort(_):\n                return self._linked_ports(port, self._links.fwd)\n            case InPort(_):\n                return self._linked_ports(port, self._links.bck)",
          new="            case OutPort(_):\n                return self._linked_ports(port, self._links.bck)\n            case InPort(_):\n                return self._linked_ports(port, self._links.fwd)"),
